@@ -88,7 +88,7 @@ TraceFreq ==
     /\ fails' = fails \cup
          (IF ~Ev.ok THEN {"C15.NoError gen_rnd_board raised " \o Ev.etype}
           ELSE BoardClauses(Ev.p, Ev.board)
-               \cup (IF FreqOK(CountLoose(Ev.board), Ev.p.width * Ev.p.length, Ev.p.lt.n) THEN {}
+               \cup (IF FreqOK(CountLoose(Ev.board), Ev.p.width * Ev.p.length, Ev.p.lt) THEN {}
                      ELSE {"C15.Frequency loose=" \o ToString(CountLoose(Ev.board))}))
     /\ notes' = notes \cup {"C15.frequency"}
     /\ UNCHANGED <<gvars, names>>
